@@ -1,4 +1,5 @@
 import Driver.Codec
+import HG.Model.Rename
 /-! Line protocol driver: one JSON request per line on stdin, one JSON response per line on stdout.
 Evaluates the model's own definitions; malformed requests yield `{"bad": reason}` (never a default). -/
 open Lean HG Driver
@@ -41,6 +42,30 @@ def handle (j : Json) : P Json := do
         ("src", .str e.src), ("dst", .str e.dst),
         ("kind", .str (match e.kind with | .data => "data" | .control => "control" | .ordering => "ordering")),
         ("values", encNames e.values)]).toArray)]).toArray)
+  | "rename" =>
+    -- rename bookkeeping: original names, optional constructor batch, successive call batches
+    let orig ← list str (← field j "orig")
+    let batches ← list (pairs str) (← field j "batches")
+    let kind ← (do match (← str (fieldD j "kind" (.str "inputs"))) with
+      | "inputs" => pure Rename.RKind.inputs | "outputs" => pure .outputs | s => throw s!"bad kind {s}")
+    let ctor : Option Rename.Batch ← (match fieldD j "ctor" .null with
+      | .null => pure none | c => do pure (some (← pairs str c)))
+    let allB := match ctor with | some c => c :: batches | none => batches
+    let h := match ctor with
+      | some c => Rename.historyOfCtor c batches kind
+      | none => Rename.historyOf batches kind
+    let cur := Rename.current orig allB
+    let query ← pairs val (fieldD j "query" (.arr #[]))
+    pure (Json.mkObj [
+      ("valid", .bool (Rename.validB orig allB)),
+      ("current", encNames cur),
+      ("track", encAL Json.str (Rename.track orig allB)),
+      ("reverse", encAL Json.str (Rename.reverseMap h kind)),
+      ("forward", encAL Json.str (Rename.forwardMapK h kind)),
+      ("resolve", encAL Json.str (cur.map fun c => (c, Rename.resolveOriginal h c))),
+      ("outputsForward", encAL Json.str (Rename.outputsForward h cur)),
+      ("params", encAL encVal (Rename.mapInputsToParams h query)),
+      ("outputsMapped", encAL encVal (Rename.mapOutputsFromOriginal h cur query))])
   | _ => throw s!"unknown op {op}"
 
 partial def loop (hin hout : IO.FS.Stream) : IO Unit := do
